@@ -124,7 +124,7 @@ type c06Tx struct {
 func c06Setup(nslots int, dataMax int) *c06Tx {
 	t := &c06Tx{}
 	t.db = c06NewDB(nslots)
-	r := c06Roles[vs.Choice("roles", len(c06Roles))]
+	r := c06Roles[vs.Choice("roles", vs.Param("R"))]
 	t.sender, t.to, t.coinbase = c06Addrs[r[0]], c06Addrs[r[1]], c06Addrs[r[2]]
 	for i, a := range t.db.accts {
 		// a slot no role refers to is a bystander: it exists (a missing bystander is the same case as an existing one with zero balance)
